@@ -236,8 +236,8 @@ func vMkWorld(nw, maxFaultAt int) (*Calcium, *vWorld, []int) {
 // vLedgerSum: sum of the amounts recorded on node a.
 func vLedgerSum(w *vWorld) int {
 	sum := 0
-	for _, id := range []string{"w1", "w2", "w3"} {
-		if wl, ok := w.st.workloads[id]; ok && wl.Nodename == "a" {
+	for _, wl := range w.st.workloads {
+		if wl.Nodename == "a" {
 			sum += vAmount(wl.Resources)
 		}
 	}
